@@ -246,12 +246,17 @@ def run_all(d, case, gaf_kind, gfa_kind):
 
 def run_case(case):
     with core.workdir() as d:
-        base, _ = run_all(d + "/pp", case, "plain", "plain")
+        import shutil
+
+        # every variant is materialised under the SAME paths (wiped in between): a file name that held plain data a moment
+        # ago now holds compressed data
+        base, _ = run_all(d + "/v", case, "plain", "plain")
         failed = [n for n, v in base.items() if isinstance(v, tuple) and v and v[0] == "FAILED"]
         variants = [("bgzf", "plain"), ("plain", "gz"), ("bgzf", "bgz")]
         table = None
         for gk, fk in variants:
-            got, t = run_all(d + "/%s_%s" % (gk, fk), case, gk, fk)
+            shutil.rmtree(d + "/v", ignore_errors=True)
+            got, t = run_all(d + "/v", case, gk, fk)
             table = table or t
             for name in base:
                 core.check(name in got, "%s GAF / %s graph: %s produced no result", gk, fk, name)
